@@ -43,6 +43,11 @@ def main(argv):
         mod = importlib.import_module("props." + pid)
         translate.regenerate(ctx)
         ctx.extra_props = list(getattr(mod, "EXTRA_PROPS", []))
+        try:
+            central = json.load(open(os.path.join(common.VERIF, "harness", "extra_props.json")))["extra"].get(pid, [])
+        except Exception:
+            central = []
+        ctx.extra_props += [ns for ns in central if ns not in ctx.extra_props]
         common.prove(ctx)
         if hasattr(mod, "correspond"):
             mod.correspond(ctx)
